@@ -10,7 +10,7 @@ import (
 	"verif/checker/ssax"
 )
 
-func init() { Registry["C09"] = Spec{Run: runC09} }
+func init() { Registry["C09"] = Spec{Run: runC09, Packages: []string{"par"}} }
 
 const parPkg = core.ModPath + "/par"
 
